@@ -79,6 +79,12 @@ Theorem C07_total_www_authenticate : forall s, exists a, www_authenticate_from_h
 Proof. exact www_authenticate_total. Qed.
 Print Assumptions C07_total_www_authenticate.
 
+(* the loop of parse_accept_header (all Accept classes share it): parse_options_header and dump_options_header on
+   every list item, options.pop("q") only when present, float() only on text matching the q regex *)
+Theorem C07_total_parse_accept_items : forall s, exists l, parse_accept_items s = Ok l.
+Proof. exact parse_accept_items_total. Qed.
+Print Assumptions C07_total_parse_accept_items.
+
 Theorem C07_total_get_content_length : forall cl te, exists o, get_content_length cl te = Ok o.
 Proof. exact get_content_length_total. Qed.
 Print Assumptions C07_total_get_content_length.
